@@ -179,12 +179,16 @@ CLAIMED = {
              "stated order and are undone afterwards; safety of the repaired post-selection analyser (under the final "
              "rules every qubit holds one photon after every instruction); F2 counterexample for the pinned rule; "
              "refusal characterisation (convert returns ok only for supported, placeable instructions). The "
-             "amplitude-level clause is stated, kernel-decided on two circuits, and evaluated on the implementation "
-             "against qiskit.quantum_info.Operator on every generated circuit (common scalar, residual <= 1e-9).",
-        technique="Lean 4 proof of the converter's decision logic (adjacency swaps, post-selection analysis safety by "
-                  "per-qubit photon bookkeeping, refusal paths) + amplitude oracle vs qiskit Operator",
-        note="PARTIAL: convert_correct for arbitrary lists needs Fock multiplicativity bridged to the gate model "
-             "(stated as convert_correct_statement); qiskit's Operator is the reference semantics of the named gates.",
+             "amplitude-level clause is PROVED IN FULL (convert_correct): for every field with valid gate constants and "
+             "every instruction list the converter accepts, in either mode, the circuit assembled from the library's "
+             "gates maps each dual-rail basis input to accepted outputs with amplitude k x idealRun (k != 0 the product "
+             "of the per-gate scalars) and 0 outside the qubit subspace. The implementation is compared with the "
+             "model's plan and with qiskit.quantum_info.Operator on every generated circuit (residual <= 1e-9).",
+        technique="Lean 4 proof of the converter (decision logic + amplitude-level correctness by forward induction over "
+                  "the instruction list through the Fock functor and the C13 gate tables) + correspondence check and "
+                  "amplitude oracle vs qiskit Operator",
+        note="qiskit's Operator is the reference semantics of the named gates: the agreement of the model's idealRun "
+             "with it (little-endian ordering) is checked by the harness, not proved.",
         ref="§5 C12"),
     "C13": dict(
         text="Lean theorems: for any field and any constants satisfying the defining equations (shown for the complex "
@@ -196,8 +200,9 @@ CLAIMED = {
              "The driver evaluates the same tower objects and is compared with U_full and Simulator amplitudes each run.",
         technique="kernel-decided amplitude tables of the Circ-built gates over exact quadratic-extension towers, "
                   "lifted to any field by evaluation homomorphisms + correspondence check",
-        note="SWAP for all mode pairs is stated (SWAP_statement) and proved on three layouts only (SWAP_partial); "
-             "checked on random mode pairs on the implementation.",
+        note="SWAP is proved for all mode pairs and every commutative ring (SWAP_all_pairs). The check also runs "
+             "histories: rotation gates with near-equal angles built in one process, and gate objects reused inside "
+             "host circuits with ancillas in the span (the gate object and the host must both still implement the gate).",
         ref="§5 C13"),
     "C14": dict(
         text="Proved for every n, every unitary and every herald dictionary: the model of Reck.map, run through the "
@@ -216,22 +221,24 @@ CLAIMED = {
         text="Lean theorems that StateTomography.process on noiseless outcome tables returns exactly rho0/tr rho0 "
              "(pure: |psi><psi|, Hermitian, unit trace, fidelity 1 under the sqrtm contract) for all n, all states, all "
              "callback/dict orders; the requested settings are exactly {X,Y,Z}^n. The circuits clause is proved for "
-             "ancilla-free bases and checked on the implementation for heralded ones. The correspondence check runs "
+             "every constructible base circuit, incl. ancillas between the rails of a qubit "
+             "(requested_circuits_corrected; the first formulation is refuted by a kernel-checked witness). The correspondence check runs "
              "the real class on generated 1-3-qubit base circuits (incl. heralded/post-selected gates and heralds "
              "declared directly on the base) with exact frequencies and compares with the exact model over Q(i,sqrt2).",
         technique="Lean 4 proof (single-qubit Pauli identities + Kronecker induction) over an executable model + "
                   "differential check with noiseless callbacks",
-        note="scipy.linalg.sqrtm is trusted (contract: fidelity of equal pure states is 1); transient LinAlgErrors of "
-             "sqrtm under load are retried and reported only when they reproduce.",
+        note="numpy.linalg.eigh inside state_fidelity is trusted. Finding F28 (sqrtm returned nan for pure states with "
+             "rounding noise in the zero block; hash-seed dependent) was found by this check and repaired in /repo.",
         ref="§5 C15"),
     "C16": dict(
         text="Proved: reference Choi = channel matrix, LI transform invertible (closed-form left inverse) and LI returns "
              "choi_from_unitary(V) exactly for every n and V; gate fidelity equals (|tr U^dag V|^2+d)/(d(d+1)) and is 1 "
-             "for U = V; MLE rows reproduce the data probabilities (row level). The optimiser is run on the "
-             "implementation and checked against the 0.99 / CPTP bound on every case.",
+             "for U = V; the MLE model vector of the reference Choi matrix is proportional to the data vector of the "
+             "whole noiseless pipeline (mle_model_consistent_corrected, under the minimal hypothesis that len(data) is "
+             "non-zero in the scalar field - true in characteristic 0, shown necessary, and refuted without it over "
+             "F_49). The optimiser is run on the implementation and checked against the 0.99 / CPTP bound on every case.",
         technique="Lean 4 proof (dual bases, Pauli twirl) over an executable model; MLE optimiser validated numerically",
-        note="PARTIAL: convergence of the projected-gradient loop, numpy pinv/eigh/solve and sqrtm are outside the "
-             "proof; mle_model_consistent is proved at row level (list-level packaging kept as a statement).",
+        note="PARTIAL: convergence of the projected-gradient loop and numpy pinv/eigh/solve are outside the proof.",
         ref="§5 C16"),
     "C06": dict(
         text="The Lean model of the source (outcome table, per-mode and cross-mode combination with fresh labels, "
